@@ -157,6 +157,19 @@ Proof.
   apply andb_true_iff. split; [apply andb_true_iff; split; [reflexivity|]|]; apply Nat.leb_le; exact Hnt.
 Qed.
 
+(* the buffer handed to C always has room for the whole Fortran variable and the NUL: an intent(inout) result as long as the
+   variable allows fits into it *)
+Lemma str_alloc_room src nsrc ntrim : snd (str_alloc src nsrc ntrim) = true ->
+  length (fst (str_alloc src nsrc ntrim)) = S nsrc.
+Proof.
+  unfold str_alloc.
+  destruct (if (ntrim =? -1)%Z then len_trim src nsrc else (Z.to_nat ntrim, (0 <=? ntrim)%Z)) as [nt ok0].
+  cbn [fst snd]. intros H.
+  apply andb_true_iff in H. destruct H as [H H2]. apply andb_true_iff in H. destruct H as [_ H1].
+  apply Nat.leb_le in H1. apply Nat.leb_le in H2.
+  rewrite !app_length, firstn_length, repeat_length. cbn [length]. lia.
+Qed.
+
 Lemma str_alloc_trim text : let nt := fst (len_trim text (length text)) in
   str_alloc text nt (Z.of_nat nt) = (rtrim_blank text ++ [NUL], true).
 Proof.
